@@ -47,11 +47,29 @@ theorem wakeNext_mapFrame (p : Pool) :
   (MapFrame.of_tasks p ({ p with sem := p.sem.wakeNext.1 } : Pool) rfl rfl (fun t tk' h => ⟨tk', h, rfl, rfl⟩)).trans
     (tame_schedOpt _ _).mapFrame
 
+/-- the books of a spawner that was waiting for room: apply/start — the invocation in hand is still counted in
+`remaining`; map — one element is in hand -/
+def PW : Cnt → MFrame → Prop := fun c fr =>
+  (c.kind = .apply → c.created + c.skipped + c.remaining = c.n0 ∧ 1 ≤ c.remaining) ∧ (c.kind = .map → PM c.left 1 c fr)
+
+theorem PW.ff : FrameFree PW := fun _ _ _ h => h
+
+theorem PW.created {r : Req} (h : PW r.cnt r.frame) :
+    PC ({ r with created := r.created + 1 } : Req).cnt ({ r with created := r.created + 1 } : Req).frame := by
+  refine ⟨fun hk => ?_, fun hk => ?_⟩
+  · have := h.1 hk
+    show r.created + 1 + r.skipped + (r.remaining - 1) = r.n0
+    have a : r.created + r.skipped + r.remaining = r.n0 := this.1
+    have b : 1 ≤ r.remaining := this.2
+    omega
+  · obtain ⟨a, b, c, d⟩ := h.2 hk
+    exact ⟨a, b, by show r.pulled = r.created + 1 + r.skipped + 0; have : r.pulled = r.created + r.skipped + 1 := c; omega, rfl⟩
+
 /-- `acquire()` returned in `_start_task`: the task is created; `k` = the map slot the spawner carried (1 for a map
 request, 0 otherwise) is now in flight and goes to the new task -/
 theorem roomGranted_tail {cap : Cap} {L R : Bool} (p : Pool) (m : Nat) (isMap : Bool) (hph : PhaseOK p) (hreg : RegOK p)
     (hgrp : GroupsOK p) (hlife : LifeOK p) (hpre : SlotPre cap p) (hst : Strict L R p)
-    (hmap : MapMid p m (if isMap then 1 else 0)) (hlt : m < p.reqs.length) (hfl : FlushOK p) :
+    (hmap : MapMid p m (if isMap then 1 else 0)) (hlt : m < p.reqs.length) (hfl : FlushOK p) (hacc : AccAt p m PW) :
     Good cap L R (((if (!p.sem.value.isZero) = true then (({ p with sem := p.sem.wakeNext.1 } : Pool).schedOpt p.sem.wakeNext.2) else p).createTask m
       isMap).continueSpawner m) := by
   split
@@ -69,7 +87,10 @@ theorem roomGranted_tail {cap : Cap} {L R : Bool} (p : Pool) (m : Nat) (isMap : 
     refine good_continueSpawner _ m ⟨good0_createTask_afterTake _ m _ ?_ (hreg.of_eq h3 r1 r2 r3 r4)
       (hgrp.of_eq (by simp) (by rw [h3])) (hlife.of_eq h3 r4) ?_ (hst.of_eq r4 (wakeNext_apis p) (by simp))
       (hfl.frame (by simp) (wakeNext_apis p) (fun t ⟨tk, a, b⟩ => ⟨tk, by rw [h3]; exact a, b⟩)) hwk',
-      mapOK_createTask isMap ((wakeNext_mapFrame p).mid hmap hlt) hlt'⟩ (by rw [reqsLen_createTask]; exact hlt')
+      (mapOK_createTask isMap ((wakeNext_mapFrame p).mid hmap hlt) hlt').mid m,
+      accAt_createTask isMap ((wakeNext_mapFrame p).accFrame.atReq hacc hlt (fun c fr fr' x _ => PW.ff c fr fr' x)) hlt'
+        (fun r _ hp => PW.created hp),
+      by rw [reqsLen_createTask]; exact hlt'⟩
     · intro i tk h hn; rw [h3] at h; exact hph i tk h hn
     · cases cap with
       | fin n =>
@@ -83,7 +104,8 @@ theorem roomGranted_tail {cap : Cap} {L R : Bool} (p : Pool) (m : Nat) (isMap : 
       | inf => exact wakeNext_inf p hpre.1 hpre.2
   · rename_i hz
     refine good_continueSpawner _ m ⟨good0_createTask_afterTake p m _ hph hreg hgrp hlife hpre hst hfl ?_,
-      mapOK_createTask isMap hmap hlt⟩ (by rw [reqsLen_createTask]; exact hlt)
+      (mapOK_createTask isMap hmap hlt).mid m, accAt_createTask isMap hacc hlt (fun r _ hp => PW.created hp),
+      by rw [reqsLen_createTask]; exact hlt⟩
     -- no free slot: nothing to show
     intro _ v hv hpos
     rw [hv] at hz
@@ -94,13 +116,25 @@ theorem roomGranted_tail {cap : Cap} {L R : Bool} (p : Pool) (m : Nat) (isMap : 
 theorem roomGranted_good {cap : Cap} {L R : Bool} (p : Pool) (m : Nat) (r : Req) (hph : PhaseOK p) (hreg : RegOK p)
     (hgrp : GroupsOK p) (hlife : LifeOK p) (hpre : SlotPre cap p) (hst : Strict L R p)
     (hmap : MapOK p) (hlt : m < p.reqs.length)
-    (hfr : ReqAt p m (fun x => x.frame = .waitRoom ∧ x.kind = r.kind)) (hfl : FlushOK p) :
+    (hfr : ReqAt p m (fun x => x.frame = .waitRoom ∧ x.kind = r.kind)) (hfl : FlushOK p) (hacc : AccOK p) :
     Good cap L R (p.roomGranted m r) := by
   unfold roomGranted
   simp only
   refine roomGranted_tail (p.modReq m fun x => { x with frame := MFrame.running }) m (r.kind == .map) hph
     (hreg.of_eq rfl rfl rfl rfl rfl) (hgrp.of_eq rfl rfl) (hlife.of_eq rfl rfl) hpre (hst.of_eq rfl rfl) ?_ (by simpa [modReq] using hlt)
-    (hfl.frame rfl rfl (fun _ h => h))
+    (hfl.frame rfl rfl (fun _ h => h)) ?_
+  rotate_left
+  · -- the books of a spawner that was suspended in `_start_task`
+    refine (hacc.atReq m).modReq _ (fun _ => rfl) ?_
+    intro x hx hp
+    have hfx := (hfr x hx).1
+    refine ⟨fun hk => ?_, fun hk => ?_⟩
+    · have a := (hp.1 hk).1
+      have b := (hp.1 hk).2.1 hfx
+      have a' : ((x.created + x.skipped + x.remaining : Nat) : Int) = x.n0 + 0 := a
+      exact ⟨by show x.created + x.skipped + x.remaining = x.n0; omega, b⟩
+    · obtain ⟨a, b, c, d, _⟩ := hp.2 hk
+      exact ⟨hk, a, d (Or.inl hfx), rfl⟩
   -- the ghost frame: the map slot a map spawner carried is now in flight
   refine (hmap.mid m).modReq _ _ ?_ (fun _ => rfl) (fun _ _ _ _ hf => by cases hf)
   intro x v hx hv
@@ -177,7 +211,7 @@ theorem roomWaitCancelled_good {cap : Cap} {L R : Bool} (p : Pool) (m : Nat) (r 
     (hreg : RegOK p) (hgrp : GroupsOK p) (hlife : LifeOK p) (hsg : SlotGrant cap p st) (hst' : Strict L R p)
     (hmap : MapOK p) (hlt : m < p.reqs.length)
     (hfr : ReqAt p m (fun x => x.frame = .waitRoom ∧ x.kind = r.kind ∧ x.acquired = r.acquired)) (hfl : FlushOK p)
-    (hwk : st ≠ some .granted → WakeOK p) :
+    (hwk : st ≠ some .granted → WakeOK p) (hacc : AccOK p) :
     Good cap L R (p.roomWaitCancelled m r st) := by
   unfold roomWaitCancelled
   simp only
@@ -194,7 +228,7 @@ theorem roomWaitCancelled_good {cap : Cap} {L R : Bool} (p : Pool) (m : Nat) (r 
         hfl.frame (releasePool_gathers p) (releasePool_apis p) (fun t ⟨tk, a, b⟩ => ⟨tk, by rw [h3]; exact a, b⟩),
         wakeOK_releasePool p,
         (hst'.of_eq r4 (releasePool_apis p) (releasePool_resized p)).rz, (hst'.of_eq r4 (releasePool_apis p) (releasePool_resized p)).ll, (hst'.of_eq r4 (releasePool_apis p) (releasePool_resized p)).al⟩,
-        (mapFrame_releasePool p).map hmap⟩, reqAt_releasePool hfr (fun _ h => h),
+        (mapFrame_releasePool p).map hmap, (mapFrame_releasePool p).acc hacc⟩, reqAt_releasePool hfr (fun _ h => h),
         Nat.lt_of_lt_of_le hlt (mapFrame_releasePool p).rql⟩
       · cases cap with
         | fin n =>
@@ -206,7 +240,7 @@ theorem roomWaitCancelled_good {cap : Cap} {L R : Bool} (p : Pool) (m : Nat) (r 
       · intro i tk h hn; rw [h3] at h; exact hph i tk h hn
     · rename_i h
       have hst : ¬ st = some .granted := by simpa using h
-      refine ⟨⟨⟨?_, hph, hreg, hgrp, hlife, hfl, hwk hst, hst'.rz, hst'.ll, hst'.al⟩, hmap⟩, hfr, hlt⟩
+      refine ⟨⟨⟨?_, hph, hreg, hgrp, hlife, hfl, hwk hst, hst'.rz, hst'.ll, hst'.al⟩, hmap, hacc⟩, hfr, hlt⟩
       cases cap with
       | fin n =>
         obtain ⟨v, hv, hs⟩ := hsg
@@ -216,7 +250,8 @@ theorem roomWaitCancelled_good {cap : Cap} {L R : Bool} (p : Pool) (m : Nat) (r 
   split
   · rename_i hc
     have hkm : r.kind = .map ∧ r.acquired = true := by simpa using hc
-    refine ⟨(Tame0.trans (tame0_releaseMap _ m) (tame_finishMeta _ m _).toTame0).good0 kg.toGood0, ?_⟩
+    refine ⟨(Tame0.trans (tame0_releaseMap _ m) (tame_finishMeta _ m _).toTame0).good0 kg.toGood0, ?_,
+      ((accFrame_releaseMap _ m).trans (tame_finishMeta _ m _).accFrame).acc kg.acc⟩
     refine mapOK_finishMeta_carried _ (mapMid_releaseMap (k := -1) (kg.map.mid m) klt) ?_
     refine reqAt_releaseMap ?_ (fun _ h => h) (fun _ _ h => h)
     intro x hx
@@ -247,6 +282,9 @@ theorem good_wakeWaitRoom {cap : Cap} {L R : Bool} (p : Pool) (m : Nat) (r : Req
     (tame_modReq _ m _).map (hg.map.of_eq rfl rfl)
   have hfl : FlushOK (({ p with sem := { p.sem with waiters := (removeWaiterL m p.sem.waiters).2 } } : Pool).modReq m
       fun x => { x with mustCancel := false }) := hg.fl.frame rfl rfl (fun _ h => h)
+  have hac : AccOK (({ p with sem := { p.sem with waiters := (removeWaiterL m p.sem.waiters).2 } } : Pool).modReq m
+      fun x => { x with mustCancel := false }) :=
+    (tame_modReq _ m _).acc (hg.acc.of_eq rfl rfl)
   have hlt2 : m < (({ p with sem := { p.sem with waiters := (removeWaiterL m p.sem.waiters).2 } } : Pool).modReq m
       fun x => { x with mustCancel := false }).reqs.length := by simpa [modReq] using hlt
   have hfr2 : ReqAt (({ p with sem := { p.sem with waiters := (removeWaiterL m p.sem.waiters).2 } } : Pool).modReq m
@@ -263,7 +301,7 @@ theorem good_wakeWaitRoom {cap : Cap} {L R : Bool} (p : Pool) (m : Nat) (r : Req
       simp [hng] at hrm; omega
     exact hg.wk a v b c hgr w (hsub w hw)
   split
-  · refine roomWaitCancelled_good _ m r _ hph hreg hgrp hlife ?_ hstr hmp hlt2 hfr2 hfl hwk
+  · refine roomWaitCancelled_good _ m r _ hph hreg hgrp hlife ?_ hstr hmp hlt2 hfr2 hfl hwk hac
     cases cap with
     | fin n =>
       obtain ⟨v, hv, hs⟩ := hg.slot
@@ -274,7 +312,7 @@ theorem good_wakeWaitRoom {cap : Cap} {L R : Bool} (p : Pool) (m : Nat) (r : Req
   · split
     · rename_i hgr
       have hst : (removeWaiterL m p.sem.waiters).1 = some .granted := by simpa using hgr
-      refine roomGranted_good _ m r hph hreg hgrp hlife ?_ hstr hmp hlt2 (fun x hx => ⟨(hfr2 x hx).1, (hfr2 x hx).2.1⟩) hfl
+      refine roomGranted_good _ m r hph hreg hgrp hlife ?_ hstr hmp hlt2 (fun x hx => ⟨(hfr2 x hx).1, (hfr2 x hx).2.1⟩) hfl hac
       cases cap with
       | fin n =>
         obtain ⟨v, hv, hs⟩ := hg.slot
@@ -284,7 +322,7 @@ theorem good_wakeWaitRoom {cap : Cap} {L R : Bool} (p : Pool) (m : Nat) (r : Req
       exact ⟨hv, by simp [modReq, hw, removeWaiterL]⟩
     · rename_i hc hgr
       have hst : ¬ (removeWaiterL m p.sem.waiters).1 = some .granted := by simpa using hgr
-      refine ⟨⟨?_, hph, hreg, hgrp, hlife, hfl, hwk hst, hstr.rz, hstr.ll, hstr.al⟩, hmp⟩
+      refine ⟨⟨?_, hph, hreg, hgrp, hlife, hfl, hwk hst, hstr.rz, hstr.ll, hstr.al⟩, hmp, hac⟩
       cases cap with
       | fin n =>
         obtain ⟨v, hv, hs⟩ := hg.slot
@@ -294,66 +332,76 @@ theorem good_wakeWaitRoom {cap : Cap} {L R : Bool} (p : Pool) (m : Nat) (r : Req
       exact ⟨hv, by simp [modReq, hw, removeWaiterL]⟩
 
 /-- the call's own semaphore handed the spawner a slot: it is in flight until the task is created or the spawner
-starts waiting for room -/
-theorem good_mapSemGranted {cap : Cap} {L R : Bool} (p : Pool) (m : Nat) (r : Req) (hg : Good0 cap L R p)
-    (hmap : MapMid p m 1) (hlt : m < p.reqs.length) : Good cap L R (p.mapSemGranted m r) := by
+starts waiting for room; one element is in hand -/
+theorem good_mapSemGranted {cap : Cap} {L R : Bool} (p : Pool) (m : Nat) (r : Req)
+    (h : SpSt cap L R p m 1 (PM r.items.length 1)) : Good cap L R (p.mapSemGranted m r) := by
   unfold mapSemGranted
   simp only
-  have hg1 : Good0 cap L R (p.modReq m fun x => { x with acquired := true, frame := MFrame.running }) :=
-    (tame0_modReq p m _).good0 hg
-  have hm1 : MapMid (p.modReq m fun x => { x with acquired := true, frame := MFrame.running }) m 1 := by
-    refine hmap.modReq _ 1 ?_ (fun _ => rfl) (fun _ _ _ _ hf => by cases hf)
-    intro x v hx hv
-    refine ⟨v, hv, ?_⟩
-    have hp : Req.pend { x with acquired := true, frame := MFrame.running } = 0 := by simp [Req.pend]
-    have hw : ({ x with acquired := true, frame := MFrame.running } : Req).mapSem.waiters = x.mapSem.waiters := rfl
-    rw [hp, hw]; omega
-  have hlt1 : m < (p.modReq m fun x => { x with acquired := true, frame := MFrame.running }).reqs.length := by
-    simpa [modReq] using hlt
-  obtain ⟨h, hle⟩ := good_mapStartTask _ m hg1 hm1 hlt1 (reqAt_modReq_new _ m _ _ (fun _ => rfl))
+  have h1 : SpSt cap L R (p.modReq m fun x => { x with acquired := true, frame := MFrame.running }) m 1 (PM r.items.length 1) := by
+    refine h.modReq' _ _ (fun x => ⟨rfl, rfl, by simp [Req.pend]⟩) (fun _ _ _ _ hf => by cases hf) (fun _ => rfl)
+      (fun x _ hp => hp)
+  have hacq : ReqAt (p.modReq m fun x => { x with acquired := true, frame := MFrame.running }) m (fun r => r.acquired = true) :=
+    reqAt_modReq_new _ m _ _ (fun _ => rfl)
   split
-  · exact good_mapLoop m _ _ h (Nat.lt_of_lt_of_le hlt1 hle)
-  · exact h
+  · rename_i hb
+    exact good_mapLoop m _ _ (spSt_mapStartTask _ m _ h1 hb)
+  · rename_i hb
+    exact good_mapStartTask _ m _ h1 hacq (by simpa using hb)
 
 theorem good_wakeWaitMapSem {cap : Cap} {L R : Bool} (p : Pool) (m : Nat) (r : Req) (hg : Good cap L R p)
-    (hlt : m < p.reqs.length) (hat : ReqAt p m (fun x => x.mapSem.waiters = r.mapSem.waiters)) :
+    (hlt : m < p.reqs.length)
+    (hat : ReqAt p m (fun x => x.mapSem.waiters = r.mapSem.waiters ∧ x.frame = .waitMapSem ∧ x.items.length = r.items.length ∧ x.kind = r.kind)) :
     Good cap L R (p.wakeWaitMapSem m r) := by
   unfold wakeWaitMapSem
   simp only
-  have hg0 : Good0 cap L R (p.modReq m fun x => { x with mapSem := { x.mapSem with waiters := (removeWaiterL m r.mapSem.waiters).2 }, mustCancel := false }) :=
-    (tame0_modReq p m _).good0 hg.toGood0
   have hrm := removeWaiterL_grants m r.mapSem.waiters
-  have hm0 : MapMid (p.modReq m fun x => { x with mapSem := { x.mapSem with waiters := (removeWaiterL m r.mapSem.waiters).2 }, mustCancel := false }) m
-      (if (removeWaiterL m r.mapSem.waiters).1 = some .granted then 1 else 0) := by
-    refine (hg.map.mid m).modReq _ _ ?_ (fun _ => rfl) (fun _ _ ha => ha)
-    intro x v hx hv
-    refine ⟨v, hv, ?_⟩
-    have hp : Req.pend { x with mapSem := { x.mapSem with waiters := (removeWaiterL m r.mapSem.waiters).2 }, mustCancel := false } = x.pend := rfl
-    have hw : ({ x with mapSem := { x.mapSem with waiters := (removeWaiterL m r.mapSem.waiters).2 }, mustCancel := false } : Req).mapSem.waiters = (removeWaiterL m r.mapSem.waiters).2 := rfl
-    rw [hp, hw, hat x hx]
-    split <;> rename_i hgr <;> simp [hgr] at hrm <;> omega
-  have hlt0 : m < (p.modReq m fun x => { x with mapSem := { x.mapSem with waiters := (removeWaiterL m r.mapSem.waiters).2 }, mustCancel := false }).reqs.length := by
-    simpa [modReq] using hlt
+  have h0 : SpSt cap L R (p.modReq m fun x => { x with mapSem := { x.mapSem with waiters := (removeWaiterL m r.mapSem.waiters).2 }, mustCancel := false }) m
+      (if (removeWaiterL m r.mapSem.waiters).1 = some .granted then 1 else 0) (fun c fr => AccReq c fr 0 ∧ fr = .waitMapSem ∧ c.left = r.items.length) := by
+    refine (hg.sp m hlt).modReq _ _ _ ?_ (fun _ => rfl) (fun _ _ ha => ha) (fun _ => rfl) ?_
+    · intro x v hx hv
+      refine ⟨v, hv, ?_⟩
+      have hp : Req.pend { x with mapSem := { x.mapSem with waiters := (removeWaiterL m r.mapSem.waiters).2 }, mustCancel := false } = x.pend := rfl
+      have hw : ({ x with mapSem := { x.mapSem with waiters := (removeWaiterL m r.mapSem.waiters).2 }, mustCancel := false } : Req).mapSem.waiters = (removeWaiterL m r.mapSem.waiters).2 := rfl
+      rw [hp, hw, (hat x hx).1]
+      split <;> rename_i hgr <;> simp [hgr] at hrm <;> omega
+    · intro x hx hp
+      have := hat x hx
+      exact ⟨hp, this.2.1, this.2.2.1⟩
   split
-  · refine (tame_finishMeta _ m _).good ?_
+  · -- cancelled while waiting for its own semaphore: a granted slot goes back, the spawner ends
     split
     · rename_i hgr
       have hst : (removeWaiterL m r.mapSem.waiters).1 = some .granted := by simpa using hgr
-      rw [if_pos hst] at hm0
-      exact ⟨(tame0_releaseMap _ m).good0 hg0, (mapMid_releaseMap (k := 0) hm0 hlt0).ok⟩
+      rw [if_pos hst] at h0
+      refine good_finishMetaSp _ m _ (P := fun c fr => AccReq c fr 0 ∧ fr = .waitMapSem ∧ c.left = r.items.length) (k := 0) ?_ (Int.le_refl 0)
+        (fun c fr x => x.1.frame (Or.inr (Or.inl rfl)))
+      exact ⟨(tame0_releaseMap _ m).good0 h0.g0, mapMid_releaseMap (k := 0) h0.mp h0.lt,
+        (accFrame_releaseMap' _ m).2 h0.ac, by
+          have := (accFrame_releaseMap (p.modReq m fun x => { x with mapSem := { x.mapSem with waiters := (removeWaiterL m r.mapSem.waiters).2 }, mustCancel := false }) m).rql
+          exact Nat.lt_of_lt_of_le h0.lt this⟩
     · rename_i hgr
       have hst : ¬ (removeWaiterL m r.mapSem.waiters).1 = some .granted := by simpa using hgr
-      rw [if_neg hst] at hm0
-      exact ⟨hg0, hm0.ok⟩
+      rw [if_neg hst] at h0
+      exact good_finishMetaSp _ m _ h0 (Int.le_refl 0) (fun c fr x => x.1.frame (Or.inr (Or.inl rfl)))
   · split
     · rename_i hgr
       have hst : (removeWaiterL m r.mapSem.waiters).1 = some .granted := by simpa using hgr
-      rw [if_pos hst] at hm0
-      exact good_mapSemGranted _ m r hg0 hm0 hlt0
+      rw [if_pos hst] at h0
+      refine good_mapSemGranted _ m r (h0.weaken ?_)
+      intro c fr hp
+      -- suspended on its own semaphore: a map request with one element in hand
+      obtain ⟨ha, hf, hl⟩ := hp
+      subst hf
+      have hkm : c.kind = .map := by
+        cases hk : c.kind with
+        | map => rfl
+        | apply => exact absurd rfl (ha.1 hk).2.2
+      obtain ⟨a, b, c', d, _⟩ := ha.2 hkm
+      exact ⟨hkm, a, d (Or.inr rfl), hl⟩
     · rename_i hgr
       have hst : ¬ (removeWaiterL m r.mapSem.waiters).1 = some .granted := by simpa using hgr
-      rw [if_neg hst] at hm0
-      exact ⟨hg0, hm0.ok⟩
+      rw [if_neg hst] at h0
+      exact h0.good (Int.le_refl 0) (fun c fr x => x.1)
 
 theorem good_stepMeta {cap : Cap} {L R : Bool} (p : Pool) (m : Nat) (hg : Good cap L R p) : Good cap L R (p.stepMeta m) := by
   unfold stepMeta
@@ -375,16 +423,33 @@ theorem good_stepMeta {cap : Cap} {L R : Bool} (p : Pool) (m : Nat) (hg : Good c
       split
       · exact hg0
       · exact hg0
-      · unfold stepMetaNotStarted
+      · rename_i hf
+        unfold stepMetaNotStarted
         split
         · exact (tame_finishMeta _ m _).good hg0
         · split
           · rename_i hk
-            exact good_applyLoop m _ _ hg0 (hat _ hk) hlt0
-          · exact good_mapLoop m _ _ hg0 hlt0
+            refine good_applyLoop m _ _ ⟨hg0.toGood0, hg0.map.mid m, ⟨hg0.acc.ref, hg0.acc.tk, fun m' r' a _ => hg0.acc.rq m' r' a, ?_⟩, hlt0⟩
+            · intro x hx
+              have e := hat (fun y => y.kind = r.kind ∧ y.remaining = r.remaining) ⟨rfl, rfl⟩ x hx
+              have ha := hg0.acc.rq m x hx
+              have hka : x.kind = .apply := e.1.trans hk
+              have := (ha.1 hka).1
+              have this' : ((x.created + x.skipped + x.remaining : Nat) : Int) = x.n0 + 0 := this
+              exact ⟨hka, by show x.created + x.skipped + r.remaining = x.n0; rw [← e.2]; omega⟩
+          · rename_i hk
+            refine good_mapLoop m _ _ ⟨hg0.toGood0, hg0.map.mid m, ⟨hg0.acc.ref, hg0.acc.tk, fun m' r' a _ => hg0.acc.rq m' r' a, ?_⟩, hlt0⟩
+            intro x hx
+            have e := hat (fun y => y.kind = r.kind ∧ y.items = r.items ∧ y.frame = r.frame) ⟨rfl, rfl, rfl⟩ x hx
+            have ha := hg0.acc.rq m x hx
+            have hkm : x.kind = .map := by
+              rw [e.1]; cases hkk : r.kind <;> simp_all
+            obtain ⟨a, b, c, d, f⟩ := ha.2 hkm
+            exact ⟨hkm, a, by have := f (e.2.2.trans hf); omega, by show x.items.length = r.items.length; rw [e.2.1]⟩
       · rename_i hf
         exact good_wakeWaitRoom _ m r hg0 hlt0 (hat _ ⟨hf, rfl, rfl⟩)
-      · exact good_wakeWaitMapSem _ m r hg0 hlt0 (hat _ rfl)
+      · rename_i hf
+        exact good_wakeWaitMapSem _ m r hg0 hlt0 (hat _ ⟨rfl, hf, rfl, rfl⟩)
 
 /-! ### gather, flush, gather_and_close, until_closed: no slot moves -/
 
@@ -561,7 +626,8 @@ theorem good_flushAfter2 {cap : Cap} {L R : Bool} (p : Pool) (a o) (hg : Good ca
       rw [hrel] at b2; cases b2
     refine ⟨⟨hg.slot, hg.phase, ?_, hg.grp.of_eq rfl rfl, hg.life.lostMono rfl (fun h => by simp [h]),
       hg.fl.frame rfl rfl (fun _ h => h), hg.wk.of_eq rfl rfl, hg.rz,
-      fun h => by show (p.lost || _) = false; rw [hg.ll h, hnone (hg.ll h)]; rfl, hg.al⟩, hg.map.of_eq rfl rfl⟩
+      fun h => by show (p.lost || _) = false; rw [hg.ll h, hnone (hg.ll h)]; rfl, hg.al⟩, hg.map.of_eq rfl rfl,
+      hg.acc.of_eq rfl rfl⟩
     exact hg.reg.flushForget _ _ _ rfl rfl rfl rfl (by simp)
   · exact (tame_finishApi p a _).good hg
 
@@ -625,7 +691,7 @@ theorem good_flushAfter1 {cap : Cap} {L R : Bool} (p : Pool) (a re o) (hg : Good
   · exact (tame_finishApi p a _).good hg
   · simp only
     have h1 : Tame p ({ p with metaCancelled := [], reqs := p.reqs.map fun (r : Req) => { r with inCancelled := false } } : Pool) :=
-      tame_of_map _ _ _ rfl rfl rfl (fun x => ⟨rfl, rfl, rfl, Nat.le_refl _, fun h => h⟩)
+      tame_of_map _ _ _ rfl rfl rfl (fun x => ⟨rfl, rfl, rfl, Nat.le_refl _, fun h => h, rfl, Or.inl rfl⟩)
     have h2 := tame_modApi ({ p with metaCancelled := [], reqs := p.reqs.map fun (r : Req) => { r with inCancelled := false } } : Pool) a
       (fun x => { x with snapE := p.ended, snapC := p.cancelledR }) (fun _ => rfl)
       (fun x hx g h => absurd h ((hfr x hx).1 g))
@@ -642,7 +708,7 @@ theorem good_flushStage1 {cap : Cap} {L R : Bool} (p : Pool) (a re) (hg : Good c
   unfold flushStage1
   simp only
   have h1 : Tame p ({ p with reqs := p.reqs.map fun (r : Req) => if r.inRunning && r.outcome.isSome then { r with inRunning := false } else r } : Pool) :=
-    tame_of_map _ _ _ rfl rfl rfl (fun x => by split <;> exact ⟨rfl, rfl, rfl, Nat.le_refl _, fun h => h⟩)
+    tame_of_map _ _ _ rfl rfl rfl (fun x => by split <;> exact ⟨rfl, rfl, rfl, Nat.le_refl _, fun h => h, rfl, Or.inl rfl⟩)
   split
   · refine good_flushAfter1 _ a re _ ((Tame.trans h1 (tame_gatherStart _ _ _ _ _)).good hg) ?_
     intro x hx
@@ -659,7 +725,7 @@ theorem good_gacAfter2 {cap : Cap} (p : Pool) (a o) (hg : Good cap true R p) : G
     exact ⟨⟨hg.slot, hg.phase, hg.reg.gacClear _ rfl rfl rfl rfl rfl, hg.grp.of_eq rfl rfl,
       hg.life.lostMono rfl (fun h => by simp [h]), hg.fl.frame rfl rfl (fun _ h => h), hg.wk.of_eq rfl rfl, hg.rz,
       fun h => Bool.noConfusion h, fun h => Bool.noConfusion h⟩,
-      hg.map.of_eq rfl rfl⟩
+      hg.map.of_eq rfl rfl, hg.acc.of_eq rfl rfl⟩
   · exact (tame_finishApi p a _).good hg
 
 /-- putting a `gather_and_close` call into its second gather: nothing to show for its snapshot -/
@@ -686,7 +752,7 @@ theorem good_gacAfter1 {cap : Cap} (p : Pool) (a re g) (hg : Good cap true R p)
   split
   · exact (tame_finishApi p a _).good hg
   · have h1 : Tame p ({ p with metaCancelled := [], reqs := p.reqs.map fun (r : Req) => { r with inCancelled := false, inRunning := false } } : Pool) :=
-      tame_of_map _ _ _ rfl rfl rfl (fun x => ⟨rfl, rfl, rfl, Nat.le_refl _, fun h => h⟩)
+      tame_of_map _ _ _ rfl rfl rfl (fun x => ⟨rfl, rfl, rfl, Nat.le_refl _, fun h => h, rfl, Or.inl rfl⟩)
     split
     · exact good_gacAfter2 _ a _ ((Tame.trans h1 (tame_gatherStart _ _ _ _ _)).good hg)
     · refine (Tame.trans (Tame.trans h1 (tame_gatherStart _ _ _ _ _)) (tame_gacGather2 _ a _ ?_)).good hg
@@ -792,7 +858,7 @@ theorem good_runRef {cap : Cap} {L R : Bool} (p : Pool) (r : Ref) (hg : Good cap
 theorem good_addApi {cap : Cap} {L R : Bool} (p : Pool) (k : ApiKind) (hg : Good cap L R p) (hk : L = false → k.isGac = false) :
     Good cap L R (p.addApi k) := by
   refine ⟨⟨hg.slot, hg.phase, hg.reg.of_eq rfl rfl rfl rfl rfl, hg.grp.of_eq rfl rfl, hg.life.of_eq rfl rfl, ?_,
-    hg.wk.of_eq rfl rfl, hg.rz, hg.ll, ?_⟩, hg.map.of_eq rfl rfl⟩
+    hg.wk.of_eq rfl rfl, hg.rz, hg.ll, ?_⟩, hg.map.of_eq rfl rfl, hg.acc.of_eq rfl rfl⟩
   · refine ⟨hg.fl.gth, ?_⟩
     intro a A g ha hfr hkind
     have ha' : (p.apis ++ [{ kind := k, frame := AFrame.notStarted, sched := true, outcome := none }])[a]? = some A := ha
